@@ -1,24 +1,14 @@
-# Per-property configuration of bin/check.
-CONF = {
-    "C10": {
-        "level": "exploration",
-        "cli": True,
-        "technique": "property-based testing: bounded-exhaustive boundary pairs + rapid generators against a math/big / strconv oracle",
-        "level_text": ("Every ordered pair of a boundary set (around 0, 2^k, 2^63, 2^64, sqrt(2^63)) under 11 binary and 3 unary operators in every exact Go "
-                       "representation is compared with math/big; random operands up to 40 digits, JSON number literals of every lexical shape through 31 pass-through "
-                       "queries, float64 bit-pattern classes and batches through cmd/gojq (its separate encoder) are checked against strconv/encoding/json. "
-                       "Exploration: the int fast paths are decided per operand pair, so a boundary-exhaustive sweep plus random search is the fitting level."),
-        "level_note": "Trusted: math/big, strconv, encoding/json. Non-integral quotients are only sanity-checked (1e-14 relative). Absence beyond the explored pairs is not shown.",
-        "rule": ("cases: (E) every ordered pair of the boundary set (0, +-1, +-2^k+-{0,1,2}, int64 and sqrt(2^63) neighbours, ...) x 11 binary operators "
-                 "and 3 unary ones in exact Go representations; (R) rapid-generated operand pairs, JSON number literals of every lexical shape through 34 "
-                 "pass-through queries, float64 bit patterns by class, batches through cmd/gojq. Oracle: math/big, strconv, encoding/json. "
-                 "Non-trivial: an operand or the exact result lies within 3 of +-2^63/+-2^64/0, or operands and result fall on different sides of the "
-                 "int64 boundary, or the operands use different magnitude classes; literals longer than 3 bytes; every float bit pattern. "
-                 "Distinct = distinct (op, a, b, representations) / (literal, query) / bits."),
-        "assumptions": ["math/big, strconv and encoding/json are correct",
-                        "non-integral quotients are only checked to be within 1e-14 relative of the true quotient (the property does not state their rounding)"],
-    },
-}
+# Configuration of bin/check: one conf.json per check package
+# (harness/checks/cNN/conf.json), plus manifest-level constants.
+import glob
+import json
+import os
+
+ROOT = os.path.dirname(os.path.dirname(os.path.abspath(__file__)))
+CONF = {}
+for _f in sorted(glob.glob(os.path.join(ROOT, "harness", "checks", "c*", "conf.json"))):
+    _pid = os.path.basename(os.path.dirname(_f)).upper()
+    CONF[_pid] = json.load(open(_f))
 
 HOOKS = {
     "guard": "verif",
@@ -31,7 +21,7 @@ HOOKS = {
 NOTES = ("bin/check <id> <quick|thorough> rebuilds the property's test binary from /repo's working tree, runs it in shards with rapid seeds derived from "
          "VERIF_SEED, attributes process deaths through an in-flight journal, merges shard results into evidence/<id>.json. Exit 0 held / 1 violation / 2 machinery. "
          "Violating cases are written to /verif/found/<id>/ (replay with bin/check <id> --replay <file>); curated regressions live in /verif/replays/<id>/; "
-         "known findings in /verif/known_findings.json.")
+         "known findings in /verif/known_findings/<id>.json.")
 
-NOT_APPLICABLE = {p: "check not built yet in this session (work in progress; see DESIGN.md section 4)" for p in
-                  ["C01","C02","C03","C04","C05","C06","C07","C08","C09","C10","C11","C12","C13","C14","C15","C16","C17","C18","C19","C20"]}
+_ALL = ["C%02d" % i for i in range(1, 21)]
+NOT_APPLICABLE = {p: "check not built yet in this session (work in progress; see DESIGN.md section 4)" for p in _ALL}
